@@ -41,6 +41,18 @@ claimed = {
    text="Model-based exhaustive exploration of the header gate of the generated Go server: for every RPC with header declarations, every must-accept exemplar of the header model M-hdr, and every non-empty subset of the required headers made bad in every way (absent, empty, each must-reject exemplar) x body valid/malformed, sent as raw requests through the byte-level wire; the model transition (400 + exact violation set + handler not run + no body read before the verdict / not rejected) is compared on every trace.",
    note="Trusted: M-hdr exemplar sets (values valid per the published OpenAPI type/format vs. not well-formed; values in neither set are not judged). Go server only; subsets are enumerated over at most 4 headers.",
    tech="explicit enumeration of header-state subsets against a reference model, replayed on the generated server", ref="DESIGN.md section 8 C09"),
+ "C02": dict(
+   text="Explicit enumeration of the URL-binding branches of the request-pipeline model (M-pipe Path/Query/Body stages): every RPC with URL-bound fields x every URL-bound slot x every boundary value / malformed spelling / missing / repeated occurrence x every body shape, as raw requests against the generated Go server; each trace is compared with the model (dispatch with the URL's value, or 400 naming the field without dispatch).",
+   note="Trusted: net/http path and query parsing; M-pipe as in DESIGN appendix A. Dot segments and empty path segments are not sent; a repeated occurrence of a singular parameter is only checked for crash freedom. Go server only (TS server: C08).",
+   tech="explicit enumeration of M-pipe URL-binding paths, every path replayed on the generated server", ref="DESIGN.md section 8 C02"),
+ "C10": dict(
+   text="Explicit-state exploration of the error half of the request-pipeline model: error source (10 kinds incl. every single-deviation rule violation) x request content type (3) x error-hook behaviour (none + all 16 subsets of {header, status, message, body}); every model path is replayed on the generated Go server and the produced response is fed to the generated Go client; status, encoding, decoded body, violation field set, hook effects and the client's error value are compared with the model M-err.",
+   note="Trusted: M-pipe/M-err (DESIGN appendix A), protovalidate stand-in for rule semantics. TS client side is covered by C08's bridge.",
+   tech="explicit-state enumeration of all error paths of the pipeline model, each replayed on generated server and client", ref="DESIGN.md section 8 C10"),
+ "C11": dict(
+   text="Bounded-exhaustive input exploration: every string up to length L over a 17-symbol JSON token alphabet, every byte string up to length 2/3 as protobuf, and every single mutation of valid bodies, against every generated decoder family of the Go server (millions of requests per run through the byte-level wire), with a reference decoder (protojson / proto.Unmarshal / JSON well-formedness + member accounting) as oracle; plus the full product status x content-type x body class against the generated Go client.",
+   note="Bodies beyond length L or two mutations away are not covered; an empty body may be dispatched as the default message; duplicate keys are not judged; hangs are excluded by construction (no blocking calls; every execution is bounded by input length).",
+   tech="bounded-exhaustive enumeration of input strings and mutations against reference decoders", ref="DESIGN.md section 8 C11"),
 }
 NA_REASON = "check not built yet (build in progress; see DESIGN.md section 14)"
 checks = []
